@@ -279,7 +279,7 @@ pub fn main(args: Args) {
         run.finish(&[]);
     }
 
-    let n = args.budget("cases", 300, 4000);
+    let n = args.budget("cases", 300, 1200);
     let seed = args.seed;
 
     // `--set record=K`: list every (design, engine) pair that fails under stimulus seeds 0..K
